@@ -99,6 +99,7 @@ RetFail(i, exc, t) ==
    /\ UNCHANGED <<seen, rtime, lastAtt, connected, closedAt, cbs, recon, devs, hadLoss, ncb, hsent, txns, void, nsens, resume, resumeDl>>
 
 (* connection attempts *)
+OnceNames == {"once0", "once1", "once2"}
 AttemptBase(ok, t) ==
    /\ lastAtt' = t                            \* every attempt counts, successful or not
    /\ closedAt' = (IF ok THEN 0 ELSE closedAt)
@@ -106,9 +107,11 @@ AttemptBase(ok, t) ==
    /\ hadLoss' = (IF ok THEN FALSE ELSE TRUE)
    /\ cbs' = (IF ok THEN <<>> ELSE cbs)
    /\ (recon => Len(cbs) = ncb)                                  \* previous reconnect ran all its callbacks
+   \* a callback that returned False (a one-shot, names "once<k>") is cleared: it is not owed at later reconnects
+   /\ ncb' = (IF recon THEN ncb - Cardinality({n \in 1 .. Len(cbs) : cbs[n] \in OnceNames}) ELSE ncb)
    /\ resume' = (IF ok /\ hadLoss THEN 1 .. nsens ELSE IF ok THEN resume ELSE {})   \* polling resumes right after a reconnect
    /\ resumeDl' = (IF ok /\ hadLoss THEN t + Resume ELSE resumeDl)
-   /\ UNCHANGED <<open, seen, rtime, connected, ncb, hsent, txns, void, nsens>>
+   /\ UNCHANGED <<open, seen, rtime, connected, hsent, txns, void, nsens>>
 Attempt(ok, t) == (lastAtt < 0 \/ t >= lastAtt + PollInt) /\ AttemptBase(ok, t) /\ UNCHANGED devs
 Dev_NoRateLimit(ok, t) == lastAtt >= 0 /\ t < lastAtt + PollInt /\ AttemptBase(ok, t)
                           /\ devs' = devs \cup {"NoRateLimit"}
